@@ -2,6 +2,8 @@ import IgrisModel.C16.Model
 import IgrisModel.C16.Wrap
 import IgrisModel.C16.Ext
 import IgrisModel.C16.WrapN
+import IgrisModel.C16.Guard
+import IgrisModel.C16.Delegate
 import IgrisModel.Common.Proto
 open Igris.Proto Igris.C16
 
@@ -179,14 +181,14 @@ def stepMgr (n : Nat) (m : Mgr) (cur : Int) (un : Option Nat) (op : String) (arg
       else some (.mgr n r.1 now un, "nonterm")
     | _, _ =>
       let cbx : CbX := fun k i => if some i = un then [] else cbXOf rules k i
-      let r := execX cbx driverFuel now 0 m
+      let r := execG cbx driverFuel now 0 m
       match r.2.2 with
       | .done => ret r.1 now ("f=" ++ showFires (vis r.2.1) ++ " " ++ summary n r.1 now)
       | .running => some (.mgr n r.1 now un, "nonterm")
       | .uaf => some (.mgr n r.1 now un, "fault")
   | "qmin", [now] => do
     let now ← now.toInt?
-    some (.mgr n m now un, match m.minimalInterval now with | some d => toString d | Option.none => "fault")
+    some (.mgr n m now un, toString (m.minimalIntervalC 9223372036854775807 now))
   | "q", [now] => do
     let now ← now.toInt?
     some (.mgr n m now un, summary n m now)
